@@ -329,6 +329,12 @@ impl Scenario for C02 {
         out
     }
 
+    fn stack_bytes() -> usize {
+        // "never exhausts the stack": a parser whose recursion depth grows with the input overflows this
+        // at the few thousand repetitions the long_run fault inserts; the unmodified parsers are iterative
+        256 << 10
+    }
+
     fn crash_prestate(c: &Case, _label: &str) -> String {
         if full_text(c).is_ascii() { "ascii".into() } else { "non-ascii".into() }
     }
